@@ -2454,7 +2454,11 @@ func (a *Authenticator) exchangeKey(ctx context.Context, negotiation *SecurityNe
 			slog.Info(fmt.Sprintf("🔑 CLIENT: Receiving key - length: %d, protocol: %d, duration: %d, inputLen: %d",
 				keyLength, protocol, duration, inputLen), "destination", "cedar")
 
-			// Read encrypted key data
+			// Read encrypted key data. The length comes from the peer: bound it
+			// before sizing a buffer with it (a wrapped session key is tiny).
+			if inputLen < 0 || inputLen > 4096 {
+				return fmt.Errorf("invalid encrypted key length %d", inputLen)
+			}
 			encryptedKey := make([]byte, inputLen)
 			for i := 0; i < inputLen; i++ {
 				b, err := msg.GetChar(ctx)
